@@ -15,8 +15,15 @@ A_SHIELD = "AsyncShieldCancellation blocks cancellation (true for trio / anyio s
 A_SYNC = "sync tree: the same function contracts are proved with sequential semantics (no interference model between lock regions); thread interleavings are covered only by the lock-discipline obligations of C08"
 
 
+AUD_H11 = {"script": "audit/h11_contract.py", "kind": "assumption", "what": "A-h11: h11 client event sequence independent of segmentation, Data events concatenate to the framed body, send() wire parses back (bounded: 14 response shapes, all single cuts + seeded multi-cuts)"}
+AUD_H2 = {"script": "audit/h2_contract.py", "kind": "assumption", "what": "A-h2: h2 event sequence independent of segmentation and in frame order with the frame's stream id, window arithmetic, id allocation, queue clearing, acknowledge never raises, GOAWAY closes (bounded: one scripted conversation, all single cuts + seeded multi-cuts)"}
+AUD_URL = {"script": "audit/url_roundtrip.py", "kind": "property", "what": "C19 round trip URL(bytes(u)) == u and well-formed Host value on the real code (bounded: component-pool product, URLs <= 64 bytes, + 3000 seeded random tails)"}
+AUD_TRIO = {"script": "audit/trio_handshake_errors.py", "kind": "assumption", "what": "A-runtime.5: trio reports a TLS handshake failure as BrokenResourceError (one in-memory handshake against a self-signed certificate)"}
+
+
 def prop(pid, **kw):
     kw.setdefault("level", "proof")
+    kw.setdefault("audits", [])
     kw.setdefault("trusted", [])
     kw.setdefault("not_decided", [])
     kw.setdefault("bounded", [])
@@ -31,6 +38,7 @@ prop(
     explanation="HTTP/1.1: ACTIVE gate is an atomic test-and-set under the state lock, ConnectionNotAvailable leaves the connection untouched, every failed exchange is closed exactly once, _response_closed returns to IDLE only from h11 DONE/DONE (else closes), observers (is_available == IDLE), body stream bound to its connection and request, wrappers pass the caller's request to their own inner connection and return its response; HTTP/2: events are queued only on the stream they carry, stream events delivered FIFO per stream id; pool: a request is assigned only a connection that can handle its origin and is available",
     trusted=[A_H11, A_H2, A_NET, A_IFACE, A_SHIELD, A_SYNC],
     not_decided=["that h11/h2 attribute bytes to messages correctly (inside the libraries)"],
+    audits=[AUD_H11, AUD_H2],
 )
 prop(
     "C02",
@@ -38,7 +46,8 @@ prop(
     explanation="plumbing obligations between network stream, h11/h2 and caller: every read result is fed to the parser exactly once and unmodified, EOF before a response head raises RemoteProtocolError, the head loop skips only non-101 1xx and returns the last event's fields, the body generator yields exactly the data of every Data event until EndOfMessage/PAUSED, wrappers yield exactly the inner chunks, Response() stores status/headers in order",
     trusted=[A_H11, A_H2, A_NET, A_SYNC],
     not_decided=["segmentation independence and framing live inside h11/h2 (assumed; bounded differential audit)"],
-    bounded=["audit/h11_contract.py: h11 segmentation independence, all cut positions of generated responses (bounded)"],
+    bounded=["audit/h11_contract.py, audit/h2_contract.py: segmentation independence of the parsers (bounded; thorough tier)"],
+    audits=[AUD_H11, AUD_H2],
 )
 prop(
     "C03",
@@ -46,6 +55,7 @@ prop(
     explanation="include_request_headers equals the default-header spec function (Host first iff absent, Content-Length / Transfer-Encoding iff neither present); Request() applies the target extension only to the target; h11.Request gets exactly method/target/headers of the request; _send_event writes exactly h11's output once; one Data event per body chunk in order then exactly one EndOfMessage; a rejected head writes nothing; HTTP/2 header list and end_stream spec",
     trusted=[A_H11, A_H2, A_NET, A_SYNC],
     not_decided=["the h11/h2 encoders themselves (assumed)", "re-send of a one-shot body iterator after a transparent retry (recorded finding when the pool contracts flag it)"],
+    audits=[AUD_H11, AUD_H2],
 )
 prop(
     "C04",
@@ -89,6 +99,7 @@ prop(
     title="at most once on the wire unless refused",
     explanation="ConnectionNotAvailable is raised only at the HTTP/1.1 gate with nothing written (and at the HTTP/2 gates / GOAWAY branch under stream_id > last_stream_id); no read/receive function may raise it; WriteError while sending is swallowed only around the send and never re-raised; connect retries only wrap establishment; the pool loops only on ConnectionNotAvailable",
     trusted=[A_H11, A_H2, A_NET, A_IFACE, A_SYNC],
+    audits=[AUD_H2],
 )
 prop(
     "C15",
@@ -96,6 +107,7 @@ prop(
     explanation="raises clauses: for every function under contract every exception class that can escape on any path (callee outcomes per assumed raises sets, implicit IndexError/KeyError/ValueError/AssertionError/TypeError sites, map_exceptions mappings read from the code) is in the documented set",
     trusted=[A_H11, A_H2, A_NET, A_SOCKS, A_SYNC, "raises sets of h11, h2, socksio, backends as stated in the sidecars (assumed)", "exceptions of caller-supplied callables (trace callback, body iterator) excluded by precondition"],
     not_decided=["'never hangs once input has ended' only as: loops that poll the parser read the network each round (no liveness proof)"],
+    audits=[AUD_TRIO],
 )
 prop(
     "C16",
@@ -109,6 +121,7 @@ prop(
     title="upgrade / CONNECT hand-over loses no bytes",
     explanation="sequence postconditions on the real upgrade stream for all max_bytes and contents (result ++ leading' ++ net' == leading ++ net, leading data first without touching the network, failures consume nothing), pass-through of write/close/start_tls/extra-info, trailing data captured with the head event, wrapped iff 101 or 2xx-to-CONNECT, switched connections take the close branch",
     trusted=[A_H11, A_NET, A_SYNC],
+    audits=[AUD_H11],
 )
 prop(
     "C19",
@@ -117,6 +130,7 @@ prop(
     trusted=[A_STD],
     not_decided=["round trip URL(bytes(u)) == u and well-formedness of IPv6 Host values need the inverse of the urllib contract in the string theory: bounded stand-in only"],
     bounded=["audit/url_roundtrip.py: hypothesis search over URLs <= 64 bytes (bounded, never counted as proved)"],
+    audits=[AUD_URL],
 )
 prop(
     "C20",
@@ -146,6 +160,7 @@ prop(
     explanation="events are queued only on the stream id they carry (dispatch loop walks h2's list completely, in order, unknown streams dropped) and are handed out FIFO per stream; a stream id is taken only after acquiring a slot, the stream starts with one slot until SETTINGS arrive, SETTINGS move permits by exactly the change of the limit (loop invariant), every registered stream releases its slot exactly once on every exit; no suspension between stream id allocation and HEADERS; wait-for obligations: no blocking call while holding the read lock, no network read while own events are queued; credit of dropped / abandoned DATA",
     trusted=[A_H2, A_NET, A_SHIELD, A_SYNC],
     not_decided=["'every other stream runs to completion' as liveness: decided only as absence of wait-for edges under the read lock and of credit leaks"],
+    audits=[AUD_H2],
 )
 prop(
     "C13",
@@ -153,6 +168,7 @@ prop(
     explanation="_send_stream_data: every frame is a non-empty prefix of the remaining data with len <= min(current stream/connection window, max frame size), the limits read with no suspension point before send_data, sent ++ rest == data (per-iteration step), remaining data shrinks; _wait_for_outgoing_flow returns the positive min of the current limits and always reads the network while blocked; every DATA event handed to the caller has exactly its flow_controlled_length acknowledged and flushed first; 2**24 initial credit on connection and stream",
     trusted=[A_H2, A_NET, A_SYNC],
     not_decided=["starvation freedom beyond 'credit is returned for what is consumed and blocked senders read the network'", "h2's own window arithmetic (assumed)"],
+    audits=[AUD_H2],
 )
 
 from . import structural as _S  # noqa: E402
